@@ -157,12 +157,15 @@ def op_update(op, kind='vars', ts=1):
     name = op[0]
     if name == 'add':
         _, c, k = op
+        body = {'_add': [{'key': k, 'state': {'v': 5}}]}
         if k[0] == 'b':
             # a turnover update in which something is born and nothing
             # dies: the empty list is a no-op
-            return {c: {'_add': [{'key': k, 'state': {'v': 5}}],
-                        '_delete': []}}
-        return {c: {'_add': [{'key': k, 'state': {'v': 5}}]}}
+            body['_delete'] = []
+        if c == 'Y':
+            # the same update also addresses the child it creates
+            body[k] = {'w': 3}
+        return {c: body}
     if name == 'del':
         _, c, k = op
         return {c: {'_delete': [k]}}
@@ -194,6 +197,9 @@ def op_update(op, kind='vars', ts=1):
         if s:
             g['steps'] = {'$probes': s}
             g['flow'] = f
+        if c == 'Y':
+            # the same update also addresses the compartment it generates
+            return {c: {'_generate': [g], k: {'w': 3}}}
         return {c: {'_generate': [g]}}
     if name == 'div':
         _, c, k = op
@@ -342,7 +348,8 @@ class Model:
             return
         self.now += 1
         if name == 'add':
-            self.t[op[1]][op[2]] = {'v': 5, 'w': 1, 'inner': 'vars',
+            self.t[op[1]][op[2]] = {'v': 5, 'w': 3 if op[1] == 'Y' else 1,
+                                    'inner': 'vars',
                                     'cell': object(), 'ts': 1,
                                     'born': self.now, 'n': 'home', 'g': 0}
         elif name == 'clr':
@@ -361,7 +368,8 @@ class Model:
             del self.t[op[1]][op[2]]
         elif name == 'gen':
             self.t[op[1]][op[2]] = {
-                'v': 7, 'w': 1, 'cell': object(), 'ts': 1,
+                'v': 7, 'w': 3 if op[1] == 'Y' else 1, 'cell': object(),
+                'ts': 1,
                 'born': self.now, 'n': 'home', 'g': 4,
                 'inner': gen_kind or self.gen_kind or (
                     'proc' if self.kind == 'vars' else self.kind)}
